@@ -265,7 +265,7 @@ def call_name(c: ast.Call) -> str:
 
 
 # ----------------------------------------------------------------------------------------------------------------- path sets
-def stmt_paths(stmts: list[ast.stmt], limit: int = 4000) -> set[tuple]:
+def stmt_paths(stmts: list[ast.stmt], limit: int = 4000, opaque_loops: bool = False) -> set[tuple]:
     """All paths through a loop-free statement list as tuples of
         ("cond", text, truth) | ("do", text) | ("exit", kind, text)
     with kind in return / raise / continue / break / end.  `not` is folded into the truth value, constant tests are
@@ -309,6 +309,11 @@ def stmt_paths(stmts: list[ast.stmt], limit: int = 4000) -> set[tuple]:
             if isinstance(st, ast.Break):
                 out.add(tuple(acc + [("exit", "break", "")]))
                 return
+            if opaque_loops and isinstance(st, (ast.For, ast.While)):
+                # a nested loop as one step (its own break/continue are its own business)
+                head = f"for {norm_stmt(st.target)} in {norm_stmt(st.iter)}: ..." if isinstance(st, ast.For) else f"while {norm_stmt(st.test)}: ..."
+                acc = acc + [("do", head)]
+                continue
             if isinstance(st, (ast.For, ast.AsyncFor, ast.While, ast.Try, ast.With, ast.AsyncWith, ast.Match)):
                 raise AnalysisError(f"stmt_paths: compound statement {type(st).__name__} at line {st.lineno}")
             acc = acc + [("do", norm_stmt(st))]
